@@ -795,7 +795,6 @@ func C09_Run(job string) {
 		v.Cover("both-issues")
 		v.Cover("both-clean")
 		v.Assert(l1 == l2 && t1 == t2 && e1 == e2, "C09:issues-depend-on-order")
-		v.Assert(l1 == n+2 && t1 == 1 && e1 == 2, "C09:issues-depend-on-order")
 		return
 	case "index-map-input":
 		// an input map given to a list node (index-keyed, as some form decoders produce): whatever
